@@ -63,6 +63,15 @@ def parseEv (s : String) : Ev :=
       | _ => .x kind fs false false 0 0
   | _ => .other
 
+/-- A read-only request (every `eth_*` / `debug_*` / `txpool_*` / `brc20_get*` query, `eth_call`, `eth_callMany`,
+both estimates, `brc20_balance`): the node is returned as it was; recorded table writes, persistent writes,
+committing runs or an entry into `DatabaseCommit` are refused, and so is a simulation environment that differs from
+the one the next transaction will get. -/
+def readStep (n : Node) (rawEvents : List String) (evs : List Ev) : Node × Class :=
+  let bad := rawEvents.any (fun e => e.startsWith "S " || e.startsWith "W " || e.startsWith "X dbcommit" || e.startsWith "X tx ")
+  let simBad := (simRuns evs).any (fun fs => !(n.simEnvOk fs))
+  (n, if bad then .reject "read-wrote" else if simBad then .reject "sim-env" else .ok)
+
 def strip0x (s : String) : String := if s.startsWith "0x" then (s.drop 2).toString else s
 
 def step (n : Node) (line : String) : Node × String :=
@@ -100,10 +109,7 @@ def step (n : Node) (line : String) : Node × String :=
   | "clear" => fin n.clear
   | "reopen" => fin (n.reopen, .ok)
   | "reorg" => fin (n.reorg (num "n"))
-  | "read" =>
-    -- read-only requests: no table write, no persistent write, no committing run may have been recorded
-    let bad := (parts.drop 1).any (fun e => e.startsWith "S " || e.startsWith "W " || e.startsWith "X dbcommit" || e.startsWith "X tx ")
-    fin (n, if bad then .reject "read-wrote" else .ok)
+  | "read" => fin (readStep n (parts.drop 1) evs)
   | _ => (n, "bad-op")
 
 end Brc20.DriverE
